@@ -2030,7 +2030,13 @@ class WSGIRequest:
                     return self._stream.read(size)
 
         self.content = StreamWrapper(self._environ["wsgi.input"])
-        self.match_info = {"path_info": environ["PATH_INFO"]}
+        # PEP 3333 decodes PATH_INFO as ISO-8859-1; undo that as
+        # path_from_environ() does, without normalising the path.
+        self.match_info = {
+            "path_info": environ["PATH_INFO"]
+            .encode("iso-8859-1")
+            .decode(DEFAULT_ENCODING)
+        }
 
     @property
     def can_read_body(self):
